@@ -22,7 +22,7 @@ import numpy as np
 from . import common
 from .common import Check, run_tlc_sharded, require_model_ok, validate_trace_all
 
-INVS = ["InvFramesInOrder", "InvCursor", "InvAllFrames", "InvRoundTrip", "InvWrapped", "InvCell"]
+INVS = ["InvFramesInOrder", "InvCursor", "InvAllFrames", "InvRoundTrip", "InvWrapped", "InvCell", "InvRowwiseAgrees"]
 
 
 def render_token(tok, fmt):
@@ -120,16 +120,18 @@ def run_case(case):
         shutil.rmtree(tmp, ignore_errors=True)
 
 
-def gen_files(rng, n, S=100, SD=16):
+def gen_files(rng, n, S=100, SD=16, sizes=None):
     """Direction B: random larger dumps as token lines (the generator only builds the file text;
-    what the reader must deliver is derived from the lines by the trace specification)."""
+    what the reader must deliver is derived from the lines by the trace specification).
+    sizes: particle numbers of LARGE frames (size-dependent code paths of the reader: block parsing above a
+    threshold); such files have 1-2 frames and are decided by the row-wise formulation of the specification."""
     out = []
-    for k in range(n):
+    for k in range(n if sizes is None else len(sizes)):
         ndim = rng.choice([2, 3])
         style = rng.choice(["x", "xs", "xu"])
         tri = rng.random() < 0.5
-        nf = rng.randint(1, 5)
-        N = rng.randint(1, 30)
+        nf = rng.randint(1, 5) if sizes is None else rng.randint(1, 2)
+        N = rng.randint(1, 30) if sizes is None else sizes[k]
         extra = rng.randint(0, 2)
         lines = []
         for f in range(nf):
@@ -163,7 +165,7 @@ def gen_files(rng, n, S=100, SD=16):
             names = {"x": ["x", "y", "z"], "xs": ["xs", "ys", "zs"], "xu": ["xu", "yu", "zu"]}[style][:ndim]
             lines.append(["ITEM:", "ATOMS", "id", "type"] + names + ["vx", "vy"][:extra])
             ids = list(range(1, N + 1))
-            kind = rng.randint(0, 5)
+            kind = rng.randint(0, 5) if sizes is None else rng.choice([0, 0, 3, 4])
             if kind <= 2:
                 rng.shuffle(ids)
             elif kind == 3 and N > 3:          # first and last line in place, interior shuffled
@@ -187,7 +189,7 @@ def gen_files(rng, n, S=100, SD=16):
                         row.append([rng.randint(lo[a] - L[a] + 1, lo[a] + 2 * L[a] - 1), S])
                 row += [[rng.randint(-999, 999), S] for _ in range(extra)]
                 lines.append(row)
-        out.append({"id": 500000 + k, "ndim": ndim, "lines": lines, "nframes": nf, "style": style, "tri": int(tri)})
+        out.append({"id": (500000 if sizes is None else 600000) + k, "ndim": ndim, "lines": lines, "nframes": nf, "style": style, "tri": int(tri)})
     return out
 
 
@@ -200,7 +202,7 @@ def validate(chk, sessions, S, SD, label):
     import concurrent.futures as cf
     if not sessions:
         return
-    nchunks = min(common.JOBS, max(1, len(sessions) // 6))
+    nchunks = min(common.JOBS, max(1, len(sessions) // (1 if label.endswith("large") else 6)))
     chunks = [sessions[i::nchunks] for i in range(nchunks)]
 
     def one(chunk):
@@ -217,8 +219,10 @@ def validate(chk, sessions, S, SD, label):
                     j -= 1
                 rej[j] = True
                 opened = recs[j]
-                chk.violation("trace:" + clause, {"ndim": opened["ndim"], "file": render(opened["lines"], "fixed")[:1200],
-                                                  "record": recs[i], "frame_index": i - j - 1})
+                big = len(opened["lines"]) > 400
+                chk.violation("trace:" + clause, {"ndim": opened["ndim"], "file": render(opened["lines"][:60] if big else opened["lines"], "fixed")[:1200],
+                                                  "record": ({"op": recs[i]["op"], "note": f"frame of a file with {len(opened['lines'])} lines"} if big else recs[i]),
+                                                  "frame_index": i - j - 1})
             j = None
             for i, rec in enumerate(recs):
                 if rec["op"] == "open":
@@ -253,7 +257,11 @@ def run(tier, replay=None):
     if not g.cases:
         raise common.MachineryError("no cases emitted")
     for batch, S, SD, label in ((g.cases, 100, 4, "A"),
-                                (gen_files(random.Random(common.SEED * 7919 + 1), 40 if tier == "quick" else 600), 100, 16, "B")):
+                                (gen_files(random.Random(common.SEED * 7919 + 1), 40 if tier == "quick" else 600), 100, 16, "B"),
+                                # scale: frames of thousands of atoms (decided row-wise, LammpsDump!WhySnapshotRows)
+                                (gen_files(random.Random(common.SEED * 7919 + 2), 0,
+                                           sizes=[1500, 12000] if tier == "quick" else [257, 1024, 4097, 10000, 12000, 20000, 33000]),
+                                 100, 16, "B-large")):
         for c in batch:
             c["den"] = S * SD
         results = common.pmap(run_case, batch, chunksize=8)
